@@ -36,7 +36,7 @@ class C04(Spec):
                   "of reads at committed roots) — and the memTree defects at committed roots are C02's findings. Concurrent bursts "
                   "only contain requests on distinct roots (those are the ones ops_commute covers); Commit/Commit commutation at the "
                   "record level is not proved. commit_exact_content_full / forks_independent_full drop `Consistent` for stores without the height prefix "
-                  "('... or Collision H'); with the prefix the `Consistent` versions remain.")
+                  "('... or CollisionIn H (strings hashed in the pending tree and in the nodes saved before)', located); with the prefix the `Consistent` versions remain.")
     assumptions = (
         "sync.Map operations and one batch write are atomic (labels are atomic steps)",
         "goleveldb behaves as a key/value map with atomic batches",
